@@ -73,9 +73,12 @@ def _b(x):
 
 
 def _as_text(x):
-    """the public API accepts text as well as bytes (Traph.__encode): every third ASCII LRU is handed over as str"""
-    if isinstance(x, bytes) and len(x) % 3 == 0 and all(c < 128 for c in x):
-        return x.decode("ascii")
+    """the public API accepts text as well as bytes (Traph.__encode): every third LRU that is valid UTF-8 is handed over as str"""
+    if isinstance(x, bytes) and len(x) % 3 == 0:
+        try:
+            return x.decode("utf-8")          # the default encoding of Traph
+        except UnicodeDecodeError:
+            return x
     return x
 
 
